@@ -6,6 +6,8 @@
 mod util;
 mod wire;
 mod gen;
+mod gen_sigma;
+mod sigma;
 
 use std::io::{BufRead, Write};
 
@@ -13,6 +15,10 @@ pub fn exec(op: &str, args: &[&str]) -> String {
     match op {
         "ix" => wire::op_ix(args),
         "state" => wire::op_state(args),
+        "verify" => sigma::op_verify(args),
+        "new" => sigma::op_new(args),
+        "prove" => sigma::op_prove(args),
+        "mprove" => sigma::op_mprove(args),
         _ => "bad-op".to_string(),
     }
 }
